@@ -34,6 +34,12 @@ CHECKS = {
  "C07": dict(cat="other", tech="abstract interpretation of the codec with trace partitioning (branches, loop peeling): obligations, pushed ranges, negative zero, padding, budget and layout instances, cursor bounds",
    text="Static, for every byte string (len <= 2^32) and n in [1,2^16]: decompress cannot panic; every pushed coefficient is within +-12159 at both push sites; negative zero cannot be emitted without the invalid flag and Some requires the flag clear; two data-dependent padding tests follow the last coefficient; each unary run is left towards acceptance only on a terminator read inside the buffer (truncated encodings rejected) and the last terminator may sit on the last buffer bit for empty and non-empty unary parts (exactly-full encodings readable); compress_coefficient's layout for all 190 coefficient classes; compress's budget on boundary classes. decompress(compress(v))=v as a function is not decided.",
    note=TRUST + "Assumed: compress's byte indexing (prefix-sum invariant, reason in the evidence). Not decided: functional inverse-ness on all inputs.", ref="4/C07"),
+ "C09": dict(cat="other", tech="CTFE constants vs spec/PQClean; abstract interpretation of the sampler building blocks with symbolic float tags and bounded unrolling",
+   text="Static: RCDT and the 13 FACCT constants equal the specification and PQClean; 1/(2 sigma_max^2), ln 2 and sigma* within 1 ulp / 1e-9; base_sampler = #{i: u < RCDT[i]} over all 18 entries with u the big-endian zero-extended 72-bit value; sampler_z's ccs, exponent ingredients, rejection guard and three draws per round; the 128-bit shift saturates at 63; every integer assert in sampler_z/base_sampler/ber_exp/approx_exp is an obligation for every mu, sigma' in [sigma_min,1.8205] and byte stream — approx_exp proved total on its domain; two obligations genuinely fail (known findings K1: i16 overflow for |mu| >= 2^15-19, K2: 8th byte index on a 7-byte tie). Distribution, termination and bit-exact equality with the reference exponential are not decided.",
+   note=TRUST + "Assumed: ber_exp hands approx_exp a remainder in [0, ln 2] (relational float fact). Known findings K1, K2 listed in known_findings.json.", ref="4/C09"),
+ "C13": dict(cat="other", tech="CTFE table accuracy against mpmath; abstract interpretation of the complex transform entry points",
+   text="Static: each of the 1024 complex twiddles (compiler-evaluated) is within 2^-49 of exp(i*pi*bitrev(i)/1024) at 50-digit precision; for n = 2..1024 fft/merge pass that table, ifft/split pass element-for-element the conjugates of its first n entries, ifft scales by exactly 1/n. The 2^-30 error bound for all inputs is a rounding-error argument whose only repository-specific premise is the table accuracy; it and the butterflies' algebra are not decided.",
+   note=TRUST + "Not decided: numerical error bound over all inputs; split/merge formulas.", ref="4/C13"),
 }
 NA = {
  "C17": "algebraic/numeric equivalence of two Babai reductions at run-time magnitudes; no structural clause that is both decidable and a substantial necessary condition (DESIGN.md section 4, C17)",
